@@ -1,0 +1,35 @@
+//go:build verif
+
+/*
+ * Verification export: rotate the active memtable without waiting for its flush (so that reads
+ * can be made while immutable memtables exist). Add-only; compiled only with `-tags verif`.
+ */
+
+package badger
+
+// VerifRotateMemtable hands the active memtable to the flusher and installs a new one, as
+// ensureRoomForWrite does, and returns at once. It returns errNoRoom's text when the flush
+// channel is full and (false, nil) when the memtable is empty.
+func (db *DB) VerifRotateMemtable() (bool, error) {
+	db.lock.Lock()
+	defer db.lock.Unlock()
+	if db.mt == nil || db.mt.sl.Empty() {
+		return false, nil
+	}
+	select {
+	case db.flushChan <- db.mt:
+		db.imm = append(db.imm, db.mt)
+		var err error
+		db.mt, err = db.newMemTable()
+		return true, err
+	default:
+		return false, errNoRoom
+	}
+}
+
+// VerifImmCount is the number of immutable memtables waiting to be flushed.
+func (db *DB) VerifImmCount() int {
+	db.lock.RLock()
+	defer db.lock.RUnlock()
+	return len(db.imm)
+}
